@@ -5,7 +5,9 @@ import "jetverif/harness/h"
 func genEvalFlavor(stream, flavor string, nQuick, nThorough int) func(r *h.Rand, tier string) []h.Case {
 	return func(r *h.Rand, tier string) []h.Case {
 		n := nQuick
-		if tier != "quick" {
+		if tier == "search" {
+			n = 4 * nQuick
+		} else if tier != "quick" {
 			n = nThorough
 		}
 		var cs []h.Case
